@@ -336,6 +336,54 @@ impl Prop for ModelProg {
             );
             return;
         }
+        // C09: RESTORE n typed at the prompt (the program has not run): the next READ gets the first constant at or
+        // after line n, wherever that line is -- the last line, line 65529, a line without DATA
+        if self.id == "C09" && rng.chance(1, 4) && !p.lines.is_empty() {
+            fn collect(sts: &[gen::St], li: usize, out: &mut Vec<(usize, gen::Datum)>) {
+                for s in sts {
+                    match s {
+                        gen::St::Data(ns) => out.extend(ns.iter().map(|n| (li, n.clone()))),
+                        gen::St::If(_, t, e) => {
+                            collect(t, li, out);
+                            if let Some(e) = e {
+                                collect(e, li, out);
+                            }
+                        }
+                        _ => {}
+                    }
+                }
+            }
+            let mut data = vec![];
+            for (li, l) in p.lines.iter().enumerate() {
+                collect(&l.sts, li, &mut data);
+            }
+            let li = if rng.chance(1, 3) { p.lines.len() - 1 } else { rng.usize(p.lines.len()) };
+            let n = p.num(p.lines[li].label);
+            let want = match data.iter().find(|(k, _)| *k >= li) {
+                None => "?OUT OF DATA\nREADY.\n<STOPPED>".to_string(),
+                Some((_, gen::Datum::S(_))) => "?TYPE MISMATCH\nREADY.\n<STOPPED>".to_string(),
+                Some((_, gen::Datum::N(v))) => format!("{}{} \nREADY.\n<STOPPED>", if *v < 0 { "-" } else { " " }, v.abs()),
+            };
+            let c = format!("RESTORE {}:READ Z9:PRINT Z9", n);
+            let mut s = crate::drive::Session::new();
+            s.drain(16);
+            for l in &lines {
+                s.command(l, 16);
+            }
+            let mark = s.mark();
+            s.command(&c, 64);
+            let got = crate::drive::transcript(s.events_since(mark), crate::drive::Norm::STD);
+            ctx.count("direct_restore_n_probes");
+            if got != want {
+                ctx.violation(
+                    "direct-restore",
+                    "direct-restore-n",
+                    &format!("{:?} typed at the prompt gave {:?}; the first constant at or after line {} makes it {:?}", c, got, n, want),
+                    &format!("{}\n{}", text, c),
+                );
+                return;
+            }
+        }
         // a session of several commands on the same machine: TRON typed at the prompt, RUN n into the
         // middle of the program, GOTO n in direct mode (no CLEAR: variables and open frames stay)
         if self.id != "C10" && _idx % 3 == 0 {
